@@ -50,6 +50,12 @@ var c10St struct {
 	stop   uint32
 	lt     uint32
 	oracle map[string]c10Norm
+	// disabled: `enabled: false` with a complete DHCPv4 configuration
+	disabled bool
+	// inject, when set, is run by the notify callback at the FIRST database-store
+	// notification (and reset): traffic of another client arriving while a static
+	// lease is being added
+	inject func()
 }
 
 type c10Norm struct {
@@ -103,14 +109,20 @@ func c10NewServer() {
 	binary.BigEndian.PutUint32(maskBytes, uint32(^uint64(0)<<(32-st.mask)))
 	maskAddr, _ := netip.AddrFromSlice(maskBytes)
 	conf := &V4ServerConf{
-		Enabled:       true,
+		Enabled:       !st.disabled,
 		GatewayIP:     c10Addr(st.gw),
 		SubnetMask:    maskAddr,
 		RangeStart:    c10Addr(st.start),
 		RangeEnd:      c10Addr(st.stop),
 		LeaseDuration: st.lt,
 		ICMPTimeout:   0,
-		notify:        srv.onNotify,
+		notify: func(flags uint32) {
+			srv.onNotify(flags)
+			if f := st.inject; f != nil && flags == LeaseChangedDBStore {
+				st.inject = nil
+				f()
+			}
+		},
 	}
 	s4, err := v4Create(conf)
 	if err != nil {
@@ -383,6 +395,7 @@ func c10Run(f []string) []string {
 		}
 		_ = os.Remove(filepath.Join(st.dir, dataFilename))
 		st.gw, st.mask, st.start, st.stop, st.lt = c10Uint(f[1]), vutil.Atoi(f[2]), c10Uint(f[3]), c10Uint(f[4]), c10Uint(f[5])
+		st.disabled = slices.Contains(f, "en=0")
 		// the shipped oracle must be what the real functions say
 		okOracle := true
 		n := vutil.Atoi(f[6])
@@ -417,6 +430,19 @@ func c10Run(f []string) []string {
 		reply = c10Msg(dhcpv4.MessageTypeRelease, net.HardwareAddr(vutil.Unhex(f[1])), 0, vutil.UnB(f[2]), c10Uint(f[3]), c10Uint(f[4]), "")
 	case "C10.addStatic":
 		reply = []string{"1", "0", "0", c10ErrKind(st.s4.AddStaticLease(c10StaticLease(f)))}
+	case "C10.addStaticInj":
+		// AddStaticLease while another client (f[4]) sends DISCOVER and then REQUESTs
+		// what it was offered: the exchange runs inside the first database-store
+		// notification of the call.
+		mac2 := net.HardwareAddr(vutil.Unhex(f[4]))
+		st.inject = func() {
+			offer := c10Msg(dhcpv4.MessageTypeDiscover, mac2, 0, false, 0, 0, "")
+			if offer[0] == "1" {
+				_ = c10Msg(dhcpv4.MessageTypeRequest, mac2, c10SelfIP, true, c10Uint(offer[2]), 0, "")
+			}
+		}
+		reply = []string{"1", "0", "0", c10ErrKind(st.s4.AddStaticLease(c10StaticLease(f)))}
+		st.inject = nil
 	case "C10.updStatic":
 		reply = []string{"1", "0", "0", c10ErrKind(st.s4.UpdateStaticLease(c10StaticLease(f)))}
 	case "C10.rmStatic":
@@ -573,6 +599,10 @@ func c10Gen(r *rand.Rand, emit0 vutil.Emit) {
 				gw = stop + 1
 			}
 		}
+		// `enabled: false` with a complete configuration: the server is not
+		// started (no DHCP traffic), but the static-lease API, the database and
+		// the answers given to DNS work as on an enabled one.
+		disabled := !probe && !big && r.IntN(7) == 0
 		lt := vutil.Pick(r, []uint32{10, 60, 3600})
 
 		nmac := 3 + r.IntN(5)
@@ -653,6 +683,9 @@ func c10Gen(r *rand.Rand, emit0 vutil.Emit) {
 			o := c10OracleOf(k)
 			f = append(f, vutil.Hex(k), vutil.B(o.err), vutil.Hex(o.norm), vutil.B(o.valid))
 		}
+		if disabled {
+			f = append(f, "en=0")
+		}
 		emit(f...)
 		if c10St.s4 == nil {
 			// rejected: the block ends with the verdict
@@ -702,6 +735,13 @@ func c10Gen(r *rand.Rand, emit0 vutil.Emit) {
 				curIP = c10U32(cur.IP)
 			}
 			w := r.IntN(100 + wStatic + wRestart + wSleep)
+			if disabled {
+				// no DHCP messages reach a server that is not started
+				w = 100 + r.IntN(wStatic+wRestart+wSleep)
+				if r.IntN(3) == 0 {
+					w = 100 + wStatic + r.IntN(wRestart)
+				}
+			}
 			switch {
 			case w < 26:
 				emit("C10.discover", vutil.Hex(mac))
@@ -753,7 +793,12 @@ func c10Gen(r *rand.Rand, emit0 vutil.Emit) {
 						// the address another client holds
 						ip = c10U32(vutil.Pick(r, c10St.s4.leases).IP)
 					}
-					emit("C10.addStatic", vutil.Hex(mac), c10Utoa(ip), vutil.Hex(host))
+					if !disabled && r.IntN(3) == 0 {
+						// another client's DISCOVER + REQUEST arrive while the lease is added
+						emit("C10.addStaticInj", vutil.Hex(mac), c10Utoa(ip), vutil.Hex(host), vutil.Hex(vutil.Pick(r, macs)))
+					} else {
+						emit("C10.addStatic", vutil.Hex(mac), c10Utoa(ip), vutil.Hex(host))
+					}
 				case 5, 6, 7:
 					if cur != nil && r.IntN(2) == 0 {
 						ip = c10U32(cur.IP)
@@ -777,6 +822,9 @@ func c10Gen(r *rand.Rand, emit0 vutil.Emit) {
 				// drop all leases on the running server, then let every client ask
 				// again: the whole pool must be on offer once more
 				emit("C10.resetleases")
+				if disabled {
+					break
+				}
 				for _, m := range macs {
 					emit("C10.discover", vutil.Hex(m))
 				}
